@@ -182,6 +182,11 @@ def hostile_message(rng: random.Random, cid: bytes = b'x',
             b'=?utf-8?b?w6k=?= <e@x>', b'a@b\r\n\tc@d', pump(rng)]),
         lambda: b'To: ' + rng.choice([b'undisclosed-recipients:;', b'a@b',
                                       b',,,', b'"x" y z <', b'\x00']),
+        lambda: rng.choice([b'Sender', b'Reply-To', b'Cc', b'Bcc',
+                            b'Resent-From', b'Return-Path']) + b': ' +
+        rng.choice([b'a@b, c@d', b'group: a@b, c@d;', b'<>', b'a@b',
+                    b'"q" <e@f>, g@h', b',,,', b'x y z', b'\xff <x@y>',
+                    b'(c) a@b (d), <e@f>']),
         lambda: b'Message-ID: ' + rng.choice([b'<a@b>', b'no-brackets',
                                               b'<a"b\\c@d>', b'<\xff@x>']),
         lambda: b'In-Reply-To: ' + rng.choice([b'<a@b> <c@d>', b'',
@@ -276,6 +281,10 @@ HOSTILE_LEAVES = [
     b'BINARY[]', b'BINARY.SIZE[]', b'BINARY[1]<0.0>', b'RFC822.SIZE.X',
     b'CHARSET', b'CHARSET \xff', b'CHARSET x-unknown', b'CHARSET UTF-8',
     b'CHARSET utf-16 TEXT x', b'HEADER', b'HEADER \xe9 x', b'HEADER "" ""',
+    b'CHARSET UTF-8 HEADER {2+}\r\n\xc3\xa9 x',
+    b'CHARSET UTF-8 SUBJECT {2+}\r\n\xc3\xa9', b'HEADER {1+}\r\n\xff x',
+    b'CHARSET UTF-8 KEYWORD {2+}\r\n\xc3\xa9',
+    b'CHARSET UTF-8 FROM {3+}\r\n\xe2\x82\xac TO {1+}\r\n\xff',
     b'OR', b'OR OR OR', b'NOT', b'NOT NOT', b'SINCE 99-Foo-0000',
     b'SINCE 1-Jan-99999', b'SINCE "1-Jan-2020"', b'BEFORE 31-Feb-2020',
     b'ON 0-Jan-2020', b'LARGER -1', b'LARGER 99999999999999999999',
